@@ -201,6 +201,17 @@ Remerge(bs, order, cmap, sep, j) ==        \* j: position in the sorted order (1
        IN Remerge(bs, order, cm2, sep, j + 1)
 RemergeMap(bs, sep) == Remerge(bs, ArgSort(bs), [i \in Idx(bs) |-> i], sep, 1)
 
+(* ---- model selection (layer.best_gmm, mode 'delta') --------------------- *)
+(* scores ab (tenths), gain (hundredths): starting from the simplest model, model m+1 becomes the *)
+(* current best if its score is smaller than gain * score of the current best                    *)
+RECURSIVE BestDeltaR(_, _, _, _)
+BestDeltaR(ab, gain100, m, best) ==
+  IF m >= Len(ab) THEN best
+  ELSE BestDeltaR(ab, gain100, m + 1, IF 100 * ab[m + 1] < gain100 * ab[best] THEN m + 1 ELSE best)
+BestDelta(ab, gain100) == BestDeltaR(ab, gain100, 1, 1) - 1          \* 0-based index, as the code returns it
+(* a comparison within the rounding of the logged scores is inconclusive *)
+BestDeltaClear(ab, gain100) == \A m \in 2..Len(ab) : \A b \in 1..(m - 1) : Abs(100 * ab[m] - gain100 * ab[b]) > 200 + gain100
+
 (* ---- message (CeiloChunk.metar_msg) ----------------------------------- *)
 BelowMsa(f, prm) == ~prm.hasmsa \/ FLt(f, 100 * prm.msa)
 RECURSIVE JoinCodes(_, _)
